@@ -303,3 +303,49 @@ def parse_alloc(side):
             a, b = part[6:].split(",")
             return int(a), int(b)
     return None
+
+
+def count_field_cases(spec):
+    """Rewrite the count field of the players / rules replies (single-packet
+    replies only) to boundary values: yields (tag, events)."""
+    out = []
+    for gi, (ch, body) in enumerate(reply_groups(spec)):
+        if len(body) != 1 or is_split(body[0]) or len(body[0]) < 6:
+            continue
+        d = body[0]
+        kind = d[4]
+        if kind == 0x44:       # players: u8 count
+            vals = [b"\x00", b"\x01", b"\xff", b"\x80"]
+        elif kind == 0x45:     # rules: u16 count
+            vals = [b"\x00\x00", b"\x01\x00", b"\xff\xff", b"\x00\x80", b"\xff\x7f"]
+        else:
+            continue
+        for v in vals:
+            groups = list(reply_groups(spec))
+            groups[gi] = (ch, [d[:5] + v + d[5 + len(v):]])
+            out.append(("count%02x=%s" % (kind, v.hex()), flatten(groups)))
+            groups[gi] = (ch, [d[:5] + v])          # announced count, nothing else
+            out.append(("count%02x=%s-only" % (kind, v.hex()), flatten(groups)))
+    return out
+
+
+def reordered_extreme_cases(spec, r):
+    """Split replies with packet 0 moved away from the front and an extreme
+    value written over its size / checksum / total / number fields."""
+    out = []
+    for gi, (ch, body) in enumerate(reply_groups(spec)):
+        if len(body) < 2 or not is_split(body[0]):
+            continue
+        for rot in (1, len(body) - 1):
+            for pos in (8, 9, 10, 12, 16):
+                for x in (b"\xff\xff\xff\xff", b"\x00\x00\x00\x04", b"\x00\x00\x10\x01", b"\xff\xff\xff\x7f", b"\x00"):
+                    if r.chance(1, 2):
+                        continue
+                    b2 = list(body)
+                    d = b2[0]
+                    b2[0] = d[:pos] + x + d[pos + len(x):]
+                    b2 = b2[rot:] + b2[:rot]
+                    groups = list(reply_groups(spec))
+                    groups[gi] = (ch, b2)
+                    out.append(("reorder+extreme@%d" % pos, flatten(groups)))
+    return out
